@@ -12,6 +12,8 @@ CONSTANTS
     KeepChunkSize = TRUE
     DivideKeepsAll = TRUE
     LandmarkOwnStream = TRUE
+    KeepLastDup = TRUE
+    ReservedByFullName = TRUE
 INIT Init
 NEXT Next
 INVARIANTS TocAddressesRightBytes ChunksTileFile OffsetsUniquePerStreamStart EntriesPreserved DiffIDIsHashOfDecompressed TocDigestIsHashOfTocJSON LosslessIdentity
